@@ -95,6 +95,9 @@ def heap_account(v, trace, res):
         def owners(c):
             if c == "frame" and e.get("_alias_ops") and set(e["_alias_ops"]) <= LIST_MODEL_EDGES:
                 return {"C01"}
+            if c == "frame" and e.get("_alias_ops"):
+                # the extraction that links the two objects did not deliver its own columns: also a matter of C04
+                return {"C19"} | ({"C04"} if any(op in OP_PROPS and "C04" in OP_PROPS[op] for op in e["_alias_ops"]) else set())
             return attribute(e["op"], c)
         mine = [c for c in b["failing"] if v.prop in owners(c)]
         if not mine:
@@ -310,8 +313,12 @@ SIMPLE_REPLAY = {}
 
 PIPELINES["C01"] = heap_pipeline("C01", quick=dict(depth=1, sim=(25, 4), rand=250),
                                  thorough=dict(depth=2, sim=(400, 6), rand=4000))
-PIPELINES["C04"] = heap_pipeline("C04", quick=dict(depth=1, sim=(6, 3), rand=250),
-                                 thorough=dict(depth=2, sim=(100, 5), rand=4000), mc=["MC_Sites"])
+def _c04(work, v, tier, seed):
+    heap_pipeline("C04", quick=dict(depth=1, sim=(6, 3), rand=250), thorough=dict(depth=2, sim=(100, 5), rand=4000), mc=["MC_Sites"])(work, v, tier, seed)
+    heap_gen_validate(work, v, "C04b", 3)      # extraction / concatenation onto the extract / further extraction
+
+
+PIPELINES["C04"] = _c04
 
 PIPELINES["C05"] = heap_pipeline("C05", quick=dict(depth=1, rand=200), thorough=dict(depth=1, scope="full", rand=4000))
 PIPELINES["C12"] = heap_pipeline("C12", quick=dict(depth=1, rand=250), thorough=dict(depth=1, scope="full", rand=4000))
@@ -498,7 +505,15 @@ CONC_INVS = {"Trace_Conc": ["NoRaceOnErr", "NoRaceOnCells", "MutexOK", "ErrorRet
 def conc_validate(work, v, module, trace, what, consts):
     """Validates recorded runs one TLC search at a time; a run that no interleaving of the specification explains (or
     that breaks an invariant of the protocol on the way) is a divergence of the code from the protocol."""
-    runs = vf.read_events(trace)
+    allruns = vf.read_events(trace)
+    # a call that did not return (or crashed) has no complete log: it is a divergence by itself
+    runs = []
+    for r in allruns:
+        if r.get("ret") in ("hang", "panic"):
+            v.finding({"op": what, "failing": ["returns" if r["ret"] == "hang" else "noPanic"], "kind": r["ret"], "cfg": r.get("cfg"),
+                       "faildist": r.get("faildist"), "failseq": r.get("failseq")}, {"family": "conc", "module": module, "run": r})
+        else:
+            runs.append(r)
     start = 0
     nacc = 0
     while start < len(runs):
